@@ -37,12 +37,16 @@ pub struct OracleState {
 	pub durable_cache: BTreeMap<(usize, usize), ((u64, usize), (u64, u64, u64))>,
 	/// (payment hash, receiving node) -> (amount, cltv) of every update_add_htlc delivered
 	pub adds_delivered: BTreeMap<([u8; 32], usize), Vec<(u64, u32)>>,
+	/// (payment hash, sending node) -> (amount, cltv) of every update_add_htlc emitted
+	pub adds_emitted: BTreeMap<([u8; 32], usize), Vec<(u64, u32)>>,
 	/// C07-5: (node, sorted inputs) -> (absolute fee, feerate per kw, txid) of the last broadcast with
 	/// exactly these inputs; cleared for a node when it restarts and for everyone on a reorg
 	pub last_fee: BTreeMap<(usize, Vec<bitcoin::OutPoint>), (u64, u64, bitcoin::Txid)>,
 	/// (node, chan, message): protocol errors about a channel the emitter no longer has, judged
 	/// once the emitter's ChannelClosed event has told why
 	pub suspect_errors: Vec<(usize, usize, String)>,
+	/// C07-5: (node, claim id) -> feerate last requested by a BumpTransaction event
+	pub last_bump_rate: BTreeMap<(usize, [u8; 32]), u32>,
 	/// (node, chan) -> step at which a ChannelForceClosed{should_broadcast: true} update reached Watch
 	pub fc_update_step: BTreeMap<(usize, usize), u64>,
 }
@@ -61,6 +65,9 @@ impl World {
 	}
 
 	pub fn observe_emit(&mut self, from: usize, to: usize, m: &WireMsg) {
+		if let WireMsg::Add(a) = m {
+			self.oracle.adds_emitted.entry((a.payment_hash.0, from)).or_default().push((a.amount_msat, a.cltv_expiry));
+		}
 		let li = match self.ledger_for_msg(from, to, m) {
 			Some(l) => l,
 			None => return,
@@ -1083,7 +1090,11 @@ impl World {
 		}
 		// C07-5 / C06-3: a claim re-issued with the same inputs never pays less than before
 		// C07-1b: a claim of an output that this node's own, already buried transaction spent
-		if let Admit::MissingOrSpent(_) = r {
+		// (only for transactions the monitor builds at the moment it broadcasts them: on anchor and
+		// zero-fee-commitment channels claims are built by the application from BumpTransaction
+		// events, which the simulated application may handle many blocks after they were generated)
+		let built_by_monitor = kind == "Claim" && self.cfg.chan_type == crate::world::ChanType::Legacy;
+		if let (Admit::MissingOrSpent(_), true) = (r, built_by_monitor) {
 			let tip = self.chain.tip_height();
 			let mut hit = None;
 			for i in tx.input.iter() {
